@@ -5,6 +5,7 @@
 //! Writes a JSON report (see report.rs) to FILE; `./check` turns it into the verdict and the evidence.
 
 pub mod corpus;
+pub mod docgen;
 pub mod driver;
 pub mod pdfwrite;
 pub mod report;
@@ -22,6 +23,28 @@ fn main() {
         std::process::exit(2);
     }
     let prop = args[1].clone();
+    if prop == "docgen-stats" {
+        util::quiet_panics();
+        let n: u64 = args.get(2).and_then(|x| x.parse().ok()).unwrap_or(200);
+        let (mut ok, mut pages_ok, mut errs) = (0, 0, std::collections::BTreeMap::<String, u64>::new());
+        for case in 0..n {
+            let mut rng = rng::Rng::derive(1, "docgen", case);
+            let d = docgen::gen_document(&mut rng);
+            match util::no_panic(|| pdf::file::FileOptions::uncached().load(d.bytes.clone())) {
+                Ok(Ok(f)) => {
+                    ok += 1;
+                    let mut all = f.num_pages() as usize == d.n_pages;
+                    for i in 0..f.num_pages() { if let Err(e) = f.get_page(i) { all = false; *errs.entry(format!("page: {}", util::err_root(&e)).chars().take(200).collect()).or_insert(0) += 1; } }
+                    if all { pages_ok += 1; }
+                }
+                Ok(Err(e)) => { *errs.entry(format!("load: {}", util::err_root(&e)).chars().take(200).collect()).or_insert(0) += 1; if let Some(dir) = args.get(3) { std::fs::write(format!("{}/bad{}.pdf", dir, case), &d.bytes).ok(); } }
+                Err(p) => { *errs.entry(format!("panic: {}", p)).or_insert(0) += 1; }
+            }
+        }
+        println!("docs {} load-ok {} pages-ok {}", n, ok, pages_ok);
+        for (k, v) in errs { println!("{:5} {}", v, k); }
+        return;
+    }
     if prop == "corpus-stats" {
         util::quiet_panics();
         for (name, b) in corpus::fixture_files() {
